@@ -19,7 +19,7 @@ THEOREMS = ["Ymq.C10." + t for t in (
     "basic_mul_spec karatsuba_spec karatsuba_domain mul_karatsuba_spec mul_karatsuba_zmod "
     "middlemul_spec middlemul_pub_spec inv_mod_xn_spec div_mod_xn_spec div_mod_xn_zmod "
     "product_tree_spec from_roots_spec multi_eval_tree_spec multi_eval_spec multi_eval_zmod roots_eval_direct_spec "
-    "mul_spec fft_spec mulfft_spec mulfft_exact kronecker_cyclic_fft roots_eval_spec roots_eval_zmod crt_q_estimate fint_mul_karatsuba crt_spec ntt_roots_spec ntt_inplace_spec ntt_pipeline_spec").split()]
+    "mul_spec fft_spec mulfft_spec mulfft_exact kronecker_cyclic_fft roots_eval_spec roots_eval_zmod crt_q_estimate fint_mul_karatsuba crt_spec ntt_roots_spec ntt_inplace_spec ntt_pipeline_spec crt_call_bound").split()]
 HYPOTHESES = []
 PROFILES = ["release", "chk"]
 TIMEOUT = 60.0
@@ -51,6 +51,10 @@ MODELLED = [
     "word-exact incl. every debug_assert/overflow/index panic site (Ymq/Model/FInt.lean)",
     "arith_fft::MultiZmodP::{new (tables without roots of unity), from_mint, _crt (three quotient-estimate branches, column loop, "
     "carry assert), redc} (Ymq/Model/Crt.lean)",
+    "arith_fft::MultiZmodP::{root tables of new (omegas, the 2^logsize powers, packed forward/backward levels), addsub_inplace, "
+    "muladdsub_inplace, mul, div_pow2, ntt_inplace (recursive, bit-reversed input)} and convolve_modn_ntt (from_mint scattered to "
+    "bit-reversed positions, two forward transforms, pointwise product, swap loop, inverse transform, redc) on vectors of w-residue "
+    "elements with the C07 word models of mg_mul/mg_redc and checked u64 butterflies (Ymq/Model/Ntt.lean)",
     "arith_poly::Poly::{_basic_mul (double loop with the first-term rule), karatsuba (threshold and unbalanced fallback after the fix, "
     "split point, three recursive products, recombination, buffer reuse incl. stale contents), mul_karatsuba, mul_basic} over abstract "
     "coefficient operations, run by the driver on residues mod n (Ymq/Model/PolyMul.lean)",
@@ -67,8 +71,10 @@ UNMODELLED = [
     "ZmodN::{mul, add, sub, redc, redc_large} are exact modular arithmetic on residues on the domain proved in C07 (redc_large_spec, "
     "add_spec, redc_spec); MInt == is equality of residues (MInts are reduced: C07); mg_mul/mg_redc are the word-exact C07 models; "
     "arith::inv_mod64 (C08) is the mathematical inverse",
-    "MultiZmodP::ntt_inplace with its root tables has NO mechanism model and no theorem: mzp_ntt and every convolve_modn_ntt case tie "
-    "it to the specification by K (specification model) and O (Python) only; Poly::mul_fft likewise",
+    "convolve_modn_ntt end to end: the word-level model (Ymq/Model/Ntt.lean) is K/O-compared up to size 1024 (beyond: specification "
+    "model), and proved in pieces (ntt_roots_spec, ntt_inplace_spec, ntt_pipeline_spec, crt_spec, crt_call_bound) but NOT composed: "
+    "from_mint, the scatter into bit-reversed positions, pprods_modn[q] = -qP mod n and the final zn.redc have no theorem; the "
+    "debug_assert sanity check of the roots at the end of MultiZmodP::new is not modelled; Poly::mul_fft has no mechanism model",
     "bnum U1024/U2048 operators are modelled as Nat arithmetic; memory safety of get_unchecked is not modelled",
 ]
 
@@ -1182,8 +1188,10 @@ CLAIM = ("Lean theorems, for all inputs, about executable models of arith_fft.rs
          "(crt_q_estimate_partial), the model's quotient estimate (three branches, shifted two-word reads, u128 sums) returns the CRT "
          "quotient on the tables built by the model of MultiZmodP::new (crt_q_estimate), _crt reaches no panic site and writes exactly "
          "pprods_modn[q] + sum xs_j crt_p_modn[j] (crt_spec: mg_mul64 via C07, u128 column sums, carry assert), the translated prime table is pairwise coprime with Montgomery "
-         "constant p-2 and generators of order exactly 2^32 (ntt_table_ok); dft_conv (any commutative ring) is NOT instantiated for "
-         "ntt_inplace. (4) arith_poly over any commutative-ring image of the coefficient operations, no panic site reached: _basic_mul and "
+         "constant p-2 and generators of order exactly 2^32 (ntt_table_ok); the root tables of new are principal roots in Montgomery form "
+         "(ntt_roots_spec), the word-level ntt_inplace is the DFT recursion of dft_conv per prime on the bit-reversed input, both directions "
+         "(ntt_inplace_spec), the transform pipeline of convolve_modn_ntt (2 forward transforms, mul, swap loop, inverse) is the cyclic "
+         "convolution per prime (ntt_pipeline_spec), and V < P/2 holds at its _crt call sites (crt_call_bound). (4) arith_poly over any commutative-ring image of the coefficient operations, no panic site reached: _basic_mul and "
          "karatsuba (all operand lengths after the fix, buffer reuse, stale buffers) = product; _middlemul (HQZ) = middle slice; "
          "_inv_mod_xn / div_mod_xn (Newton, after the fix) = series inverse / quotient; _product_tree / from_roots = product of (x - r_i); "
          "_multi_eval / multi_eval = values at all points; roots_eval = prod_i (b_j - a_i) in both branches for |b| >= 2 (Barrett reduction "
@@ -1193,8 +1201,10 @@ CLAIM = ("Lean theorems, for all inputs, about executable models of arith_fft.rs
          "models (K) and judged by an independent Python schoolbook/big-integer oracle (O).")
 LEVEL_NOTE = ("Trusted: Lean kernel (+propext, Classical.choice, Quot.sound); the hand-written models' correspondence to the Rust code (sampled by "
               "the harness in both profiles, not proved); the translator for the dispatch table and the prime table; Python integers in the oracle. "
-              "NO THEOREM, tied to the schoolbook specification by K/O only: MultiZmodP::ntt_inplace and the NTT-based "
-              "convolve_modn_ntt at word level (exact convolution inside the arith_poly models), Poly::mul_fft, roots_eval with |b| = 1. "
+              "NOT COMPOSED: convolve_modn_ntt is proved in pieces (roots, ntt_inplace, pipeline per prime, _crt, V < P/2) but from_mint, "
+              "pprods_modn[q] = -qP mod n and the final zn.redc have no theorem, so there is no end-to-end statement modulo n and the arith_poly "
+              "models still take the NTT path as the exact convolution; K/O compare the whole word-level model up to size 1024. "
+              "NO THEOREM: Poly::mul_fft, roots_eval with |b| = 1. "
               "crt_spec covers _crt (mg_mul64, quotient estimate, column loop, carry assert) on the tables of the model of MultiZmodP::new; "
               "from_mint, redc, pprods_modn[q] = -qP mod n, and that V < P/2 for the values _crt is called on, are checked by K/O (mzp_new, "
               "mzp_from_mint, mzp_crt, mzp_redc) only. The arith_poly theorems are about models over abstract "
